@@ -131,12 +131,12 @@ Differs(f, g, paths) == {q \in paths : q \notin DOMAIN f \/ q \notin DOMAIN g \/
 \* C17: builder chains (spec/ZogChain.tla). The case's schema is the DECLARATIVE reading of the chain; the harness built the
 \* real schema by executing the chain on the builder API. Besides everything else, each issue must carry the message of
 \* exactly the test (or Required call) it belongs to: a custom one iff one was passed to that call.
-MsgClass(m) == IF m \in {"mm", "rm"} THEN m ELSE IF m = "" THEN "EMPTY" ELSE "default"
+MsgClass(m) == IF m \in {"mm", "rm"} THEN m ELSE IF m = "" THEN "EMPTY" ELSE IF m = "stale-formatter" THEN "stale" ELSE "default"
 TestCM(node, v) ==
   LET R[i \in 0..Len(node.tests)] ==
         IF i = 0 THEN <<>>
         ELSE IF PassN(node, node.tests[i], v) THEN R[i - 1]
-        ELSE Append(R[i - 1], [code |-> node.tests[i].code, msg |-> IF node.tests[i].msg # "" THEN node.tests[i].msg ELSE "default"])
+        ELSE Append(R[i - 1], [code |-> node.tests[i].code, msg |-> IF node.tests[i].msg \notin {"", "MF"} THEN node.tests[i].msg ELSE "default"])
   IN R[Len(node.tests)]
 C17Want(c) ==
   IF c.schema.k # "prim" \/ "reqmsg" \notin DOMAIN c.schema THEN <<>> ELSE
